@@ -2,6 +2,8 @@
 subscribers, virtual clock, delivery failures, reference liveness model driven only by what subscribers observe)."""
 from __future__ import annotations
 
+import threading
+
 from lxml import etree
 
 from dsim import canon, peers, workload as W, worldb
@@ -9,6 +11,7 @@ from dsim.base import CheckBase, draw_sched_config
 from dsim.xsd import NS
 
 EPS = 0.06
+SEND_MARGIN = 0.05  # decision to send -> first byte on the wire: connection set-up at <= 1 ms latency, no thread stalls
 GRACE = 2.3  # housekeeping period (1 s sleep) + 1 s delay after unsubscribe + slack
 CAT_ACTION = {'metric_updates': 'EpisodicMetricReport', 'alert_updates': 'EpisodicAlertReport',
               'comp_updates': 'EpisodicComponentReport', 'op_updates': 'EpisodicOperationalStateReport',
@@ -33,6 +36,7 @@ class Sub:
         self.unsub_resp = None
         self.step_resp = None  # scheduler step at which the Subscribe response was received (orders same-time events)
         self.unsub_step = None
+        self.unsub_answered = None  # (virtual time, step) at which the provider wrote its UnsubscribeResponse
         self.failures = 0
         self.fail_t = None  # virtual time of the first delivery failure this subscription (or its connection) saw
         self.ended = False
@@ -89,7 +93,8 @@ class C08(CheckBase):
                    'up to 2.3 virtual s after Unsubscribe / expiry a request naming that subscription may be answered '
                    'either way (housekeeping grace)']
     expected_probes = ['subscribe', 'renew', 'getstatus', 'unsubscribe', 'unknown_id', 'expiry_crossed', 'commits',
-                       'expected_deliveries', 'forbidden_checked', 'stop_end', 'clock_jump']
+                       'expected_deliveries', 'forbidden_checked', 'stop_end', 'clock_jump',
+                       'unsubscribe_during_delivery']
     max_steps = 6_000_000
     max_virtual = 100000.0
 
@@ -108,7 +113,9 @@ class C08(CheckBase):
         nsubs = 0
         for i in range(n):
             k = rng.choice(['subscribe', 'subscribe', 'tx', 'tx', 'tx', 'tx', 'renew', 'getstatus', 'unsubscribe',
-                            'advance', 'advance', 'behaviour', 'unknown', 'clock_jump', 'heal'])
+                            'advance', 'advance', 'behaviour', 'unknown', 'clock_jump', 'heal', 'tx_unsub'])
+            if k == 'tx_unsub' and nsubs < 2:
+                k = 'subscribe'
             if nsubs == 0:
                 k = 'subscribe'
             op = {'id': i, 'k': k}
@@ -125,11 +132,15 @@ class C08(CheckBase):
                            'end_to': rng.choice(['none', 'none', 'own', 'other']),
                            'accept': rng.choice([None, 'gzip', 'x-lz4, gzip', 'gzip;q=0', 'identity', '*', '']),
                            'ref': rng.random() < 0.4})
-            elif k == 'tx':
+            elif k in ('tx', 'tx_unsub'):
                 tx = g.gen_op(kinds=['metric', 'alert', 'component', 'operational', 'context', 'descr', 'rt'])
                 if tx is None:
                     continue
                 op['tx'] = tx
+                if k == 'tx_unsub':
+                    # a subscriber unsubscribes while the provider is busy delivering the reports of a commit to slow peers
+                    op.update({'sub': rng.randrange(nsubs), 'slow_d': rng.choice([0.15, 0.3, 0.6]),
+                               'unsub_delay': rng.choice([0.0, 0.02, 0.08])})
             elif k in ('renew', 'getstatus', 'unsubscribe'):
                 op.update({'sub': rng.randrange(max(1, nsubs)), 'expires': rng.choice([None, 1, maxdur, maxdur * 2])})
             elif k == 'advance':
@@ -216,6 +227,23 @@ class C08(CheckBase):
             r = peers.SoapResponse(cl.post(path, body))
             return r, t_req, s.now
 
+        def do_tx(op):
+            t0 = s.now
+            step0 = s.steps
+            v0 = w.mdib.mdib_version
+            with worldb.node(worldb.PROVIDER_IP):
+                try:
+                    W.apply_op(w.mdib, op['tx'])
+                except W.OpRejected:
+                    pass
+                except Exception as ex:  # noqa: BLE001
+                    # an exception from the commit (sending) surfaced in the application's transaction
+                    ctx.violation('C08.iff', f'commit-raised:{type(ex).__name__}',
+                                  f'transaction raised {ex!r} while notifications were being delivered')
+            w.settle(1.0)
+            commits.append((t0, s.now, list(range(v0 + 1, w.mdib.mdib_version + 1)), step0))
+            ctx.probe('commits', w.mdib.mdib_version - v0)
+
         for op in plan['ops']:
             s.reseed('op', op['id'])
             k = op['k']
@@ -263,21 +291,31 @@ class C08(CheckBase):
                 else:
                     ctx.probe('subscribe_rejected')
             elif k == 'tx':
-                t0 = s.now
-                step0 = s.steps
-                v0 = w.mdib.mdib_version
-                with worldb.node(worldb.PROVIDER_IP):
-                    try:
-                        W.apply_op(w.mdib, op['tx'])
-                    except W.OpRejected:
-                        pass
-                    except Exception as ex:  # noqa: BLE001
-                        # an exception from the commit (sending) surfaced in the application's transaction
-                        ctx.violation('C08.iff', f'commit-raised:{type(ex).__name__}',
-                                      f'transaction raised {ex!r} while notifications were being delivered')
-                w.settle(1.0)
-                commits.append((t0, s.now, list(range(v0 + 1, w.mdib.mdib_version + 1)), step0))
-                ctx.probe('commits', w.mdib.mdib_version - v0)
+                do_tx(op)
+            elif k == 'tx_unsub' and len([x for x in subs if x.accepted]) >= 2:
+                sub = subs[op['sub'] % len(subs)]
+                if not sub.accepted or sub.unsub_resp is not None:
+                    do_tx(op)
+                    continue
+                ctx.probe('unsubscribe_during_delivery')
+                saved_modes = dict(modes)
+                for other in subs:
+                    if other is not sub and other.owner != sub.owner and modes.get(other.k, ['ok'])[0] == 'ok':
+                        modes[other.k] = ['slow', op['slow_d']]
+                t = threading.Thread(target=do_tx, args=(op,), name='tx')
+                t.start()
+                s.sleep(op['unsub_delay'])
+                try:
+                    r, t_req, t_resp = mgr_request(sub, 'Unsubscribe')
+                    if r.status == 200 and not r.is_fault:
+                        sub.unsub_resp = t_resp
+                        sub.unsub_step = s.steps
+                        sub.unsub_answered = clients[sub.owner].resp_sent
+                except OSError:
+                    pass
+                t.join()
+                modes.clear()
+                modes.update(saved_modes)
             elif k in ('renew', 'getstatus', 'unsubscribe') and subs:
                 sub = subs[op['sub'] % len(subs)]
                 if not sub.accepted:
@@ -325,6 +363,7 @@ class C08(CheckBase):
                 if ok and kind == 'Unsubscribe' and sub.unsub_resp is None:
                     sub.unsub_resp = t_resp
                     sub.unsub_step = s.steps
+                    sub.unsub_answered = clients[sub.owner].resp_sent
             elif k == 'unknown' and subs:
                 sub = subs[op['sub'] % len(subs)]
                 if not sub.accepted:
@@ -461,6 +500,11 @@ class C08(CheckBase):
                 if rec.action not in flt:
                     ctx.violation('C08.iff', 'action-not-in-filter', f'subscription {sb.k} (filter {sorted(flt)}) received '
                                                                      f'{rec.action}')
+                if sb.unsub_answered is not None and rec.sent_t > sb.unsub_answered[0] + SEND_MARGIN:
+                    ctx.violation('C08.iff', 'sent-to-dead:after-unsubscribe-was-answered',
+                                  f'subscription {sb.k}: the provider put {rec.action} on the wire at t={rec.sent_t:.3f}, '
+                                  f'{rec.sent_t - sb.unsub_answered[0]:.3f}s after it had answered the Unsubscribe '
+                                  f'(t={sb.unsub_answered[0]:.3f})')
                 if rec.t > t_stop1 + 0.2:
                     ctx.violation('C08.end', 'notification-after-stop', f'subscription {sb.k} received {rec.action} after '
                                                                        f'stop_all')
